@@ -7,6 +7,26 @@ Set Implicit Arguments. Unset Strict Implicit. Unset Printing Implicit Defensive
 Import GRing.Theory.
 Local Open Scope ring_scope.
 
+Lemma mem_zip (S T : eqType) (s1 : seq S) (s2 : seq T) (t : S * T) :
+  t \in zip s1 s2 -> t.1 \in s1 /\ t.2 \in s2.
+Proof.
+elim: s1 s2 => [|x s1 IH] [|y s2] //=; rewrite !inE.
+case/orP => [/eqP ->|/IH [-> ->]] /=; first by rewrite !eqxx.
+by rewrite !orbT.
+Qed.
+
+(* parr is an eqType (needed for membership in operand lists) *)
+Section ParrEq.
+Variable R : comRingType.
+Definition parr_to_tuple (p : parr R) := (names p, shape p, rows p, cols p).
+Definition tuple_to_parr (t : seq nat * seq nat * seq (seq nat) * seq (seq R)) : parr R :=
+  let: (a, b, c, d) := t in Parr a b c d.
+Lemma parr_tupleK : cancel parr_to_tuple tuple_to_parr.
+Proof. by case. Qed.
+Definition parr_eqMixin := CanEqMixin parr_tupleK.
+Canonical parr_eqType := EqType (parr R) parr_eqMixin.
+End ParrEq.
+
 Section Abs.
 Variable (n : nat) (R : comRingType).
 Implicit Types (p q : parr R) (t : term R) (ns : seq nat) (r : seq nat).
